@@ -131,6 +131,11 @@ func runC13PrimaryChange(c *core.Case, k int) {
 		return
 	}
 	hist = append(hist, "n1 holds the halt lock")
+	grantAt := time.Now()
+	var haltID int64
+	if hl := R.Store.DB("db").RemoteHaltLock(); hl != nil {
+		haltID = hl.ID
+	}
 	img, _ := led.get("db", mon.PosOf(R.Node, "db"))
 	rw, err := newWriter(R.Node, "db", ps, wal, "delete", img, c.SubRng("rw"), led, 32)
 	if err != nil {
@@ -203,6 +208,20 @@ func runC13PrimaryChange(c *core.Case, k int) {
 	c.Count("holder_write_after_change_judged", 1)
 	rw.close()
 	_ = lf.Unlock(41, 72, 72)
+	// ---- the grant of the former primary ends with its TTL (the holder's release
+	// went to the new primary). The TTL is 1.5 s and the monitor ticks every 50 ms;
+	// a grant that is still in force after twenty TTLs has not expired.
+	if haltID != 0 && !A.Exited() {
+		ttl := 1500 * time.Millisecond
+		for A.Store.DB("db").HoldsHaltLock(haltID) && time.Since(grantAt) < 20*ttl {
+			time.Sleep(10 * time.Millisecond)
+		}
+		if A.Store.DB("db").HoldsHaltLock(haltID) {
+			c.Violate("C13/halt-lock-never-expired", fmt.Sprintf("the former primary still honours halt lock %d %s after granting it (TTL %s, monitor interval 50 ms): the lock does not expire on a node that lost its lease", haltID, time.Since(grantAt).Round(time.Second), ttl), detail())
+			return
+		}
+		c.Count("former_primary_grant_expired", 1)
+	}
 	// ---- everybody ends on the new primary's chain
 	img2, ok := led.get("db", mon.PosOf(B.Node, "db"))
 	if !ok {
